@@ -873,7 +873,7 @@ def formula_grammar(table):
     # Note: try mixtures first, otherwise "3L H2O@1 // ..." fails with
     # "unknown element L" before the litre unit is considered.
     formula = (ungrouped_mixture | compound | grouped_mixture)
-    grammar = Optional(formula, default=Formula()) + StringEnd()
+    grammar = Optional(formula, default=None) + StringEnd()
 
     grammar.setName('Chemical Formula')
     return grammar
@@ -887,7 +887,9 @@ def parse_formula(formula_str, table=None):
     table = default_table(table)
     if table not in _PARSER_CACHE:
         _PARSER_CACHE[table] = formula_grammar(table)
-    return _PARSER_CACHE[table].parseString(formula_str)[0]
+    result = _PARSER_CACHE[table].parseString(formula_str)[0]
+    # Note: return a new empty formula each time since formulas are mutable.
+    return result if result is not None else Formula()
 
 def _count_atoms(seq):
     """
